@@ -387,6 +387,12 @@ def run(res, tier, seed, search):
         for l in open(corpus):
             if l.strip():
                 replay_case(rep, json.loads(l)); res.count("corpus")
+    # one wide optimal-transport pair: more than 65536 arcs (node / arc counters beyond 16 bits)
+    wrng = np.random.default_rng([seed, 260])
+    wn = 260
+    wx = wrng.integers(1, 5, wn).astype(np.float32); wy = wrng.integers(1, 5, wn).astype(np.float32)
+    wC = np.abs(np.subtract.outer(np.arange(wn), np.arange(wn))).astype(np.float64)
+    check_pair(rep, "kantorovich", "wide-support", wx, wy, {"cost": wC})
     for name in D.named_distances:
         if name not in R.SPEC:
             continue
